@@ -1,8 +1,10 @@
 """Development helper: create scratch worktrees of /repo under /tmp/wt and write the task file of one round of
 sub-agents (breaking agents B<n>, refactoring agents R<n>).  The agents get the property text only - nothing from /verif.
-usage: mk_agent_tasks.py <first B number> <first R number> <pair offset>"""
+usage: mk_agent_tasks.py <first B number> <first R number> <pair offset> [style]
+style 4 (default): bold cross-function work (round 4); style 5: minimal mutations / modern-syntax and re-organising refactorings (round 5)"""
 import json, subprocess, os, sys
 b0, r0, off = int(sys.argv[1]), int(sys.argv[2]), int(sys.argv[3])
+style = sys.argv[4] if len(sys.argv) > 4 else '4'
 props = {}
 for l in open('/verif/properties.jsonl'):
     d = json.loads(l); props[d['id']] = d
@@ -132,6 +134,111 @@ edge cases, error cases - compare exception type and message) on the unmodified 
 Verify for each: (a) patch applies to clean HEAD with `git apply --check`, (b) suite result identical to baseline, (c) your
 comparison shows no difference. Finish with `git checkout -- .` (only `_out/` and `_task.md` untracked). Final message: 3 lines per patch.
 '''
+BREAK5 = '''# Task: small bugs in SFC_models that the test suite does not notice
+
+You are working in a scratch git worktree of the pure-Python project brianr747/SFC_models at **{wt}**.
+Work ONLY inside {wt}. Do not read, list or modify /repo, /verif or any other worktree under /tmp/wt; everything you
+need is in your worktree. (The package is `sfc_models/`, the tests are `test/` and `sfc_models/deprecated/test_*.py`.)
+
+## The two properties (what users of the library rely on)
+
+{p1}
+
+{p2}
+
+(The code base has recently been repaired in several places, so read the current code rather than assuming defects.)
+
+## What to produce
+
+Produce **six different** small source changes (six independent patches, each against the unmodified HEAD of the worktree):
+`change1..change3` break the FIRST property, `change4..change6` break the SECOND. Each changes the package under `sfc_models/` so
+that it **breaks that property** while the code still imports and the **existing test suite still passes unchanged**. Do not edit
+any test file.
+
+Each change is **small: one to four changed lines**, the kind of slip a mutation-testing tool or a tired developer produces and a
+reviewer skims over: a changed comparison or boundary (`<` / `<=`, `>` / `>=`, `==` / `!=`, `is` / `==`), `and` / `or`, a dropped or
+added `not`, an off-by-one in a range / slice / index, first or last element skipped, a wrong-but-similar variable or attribute
+of the same type, two arguments swapped, a statement removed or moved above / below its neighbour (a reset, an append, an update
+of a dict, a `continue` / `break` / `return`), `break` <-> `continue`, a defensive copy dropped, a changed default argument or
+constant, a changed format specification or separator, a sign, `+=` <-> `=`, `append` <-> `insert(0, ..)` / `extend`,
+`sorted(..)` dropped or added, a narrower / broader `except`, `str.strip` <-> `lstrip`, `startswith` <-> `in`, a key looked up in
+the wrong dict, a loop over the wrong one of two similar collections, a condition tested before instead of after an update.
+The six changes must be of six different kinds and touch at least five different functions - in different files wherever the
+property reaches several: look at helpers far from the main path, constructors and defaults, `gl_book/`, `external.py`,
+`utils.py`, `equation.py`, `equation_parser.py`, `equation_solver.py`, `base_solver.py`, `models.py`, `sector.py`,
+`sector_definitions.py`, `deprecated/iterative_machine_generator.py` wherever the property reaches them. Many such slips
+are caught by the tests or leave the property intact: keep only those that really break it (your demo decides).
+
+For each change write a **demonstration** `demo.py`: exits 0 (prints PASS) on the unmodified code and exits non-zero
+(prints FAIL) with the change applied, showing the *property* being violated (not merely some difference).
+
+{run}
+* demo:   `cd {wt} && PYTHONPATH={wt} /venv/bin/python _out/changeN/demo.py`
+
+## Deliverables
+
+    {wt}/_out/change1/patch.diff  demo.py  notes.md     (notes: which property and clause is broken, what is needed to manifest, what you ran and saw)
+    ... change2 .. change6 likewise; put the property id (e.g. C07) on the first line of notes.md.
+
+Verify for each: (a) patch applies to clean HEAD with `git apply --check`, (b) suite result identical to baseline, (c) demo
+fails with the patch and passes without. Finish with `git checkout -- .` (only `_out/` and `_task.md` untracked). Final message:
+3 lines per change.
+'''
+
+REFAC5 = '''# Task: behaviour-preserving modernisation of SFC_models
+
+You are working in a scratch git worktree of the pure-Python project brianr747/SFC_models at **{wt}**.
+Work ONLY inside {wt}. Do not read, list or modify /repo, /verif or any other worktree under /tmp/wt.
+(The package is `sfc_models/`, the tests are `test/` and `sfc_models/deprecated/test_*.py`.) Python is 3.12.
+
+## Context: two behaviours users rely on
+
+{p1}
+
+{p2}
+
+## What to produce
+
+Produce **five different refactorings** (independent patches, each against the unmodified HEAD) of the code these two behaviours
+are anchored in. Each must be **strictly behaviour-preserving for every input** - same results, same exceptions (type and message),
+same side effects and their order, same log output - the kind of patch a maintainer merges in a "modernise / tidy up" pull request.
+Do not edit test files; do not change public names or signatures (private names - leading underscore - and locals may be renamed
+consistently).
+
+Each patch 15 to 80 changed lines, each with a different flavour; over the five patches use most of the following:
+* **modern syntax**: f-strings instead of `%` / `.format` / concatenation (identical text for every input only), the walrus
+  operator, `match` / `case` instead of if/elif chains on a value, type annotations on signatures and *annotated assignments*
+  (`x: int = 0`, `self.items: list = []`), star-unpacking (`first, *rest = ..`), chained comparisons, augmented assignments,
+  `str.removeprefix/removesuffix/partition`, `dict | dict`, `dict.setdefault` / `collections.defaultdict` / `Counter`,
+  `itertools.chain`, `contextlib` helpers, `sorted(key=..)`, `any` / `all` / `sum` with generators, `enumerate(start=)`, `zip`;
+* **re-organisation across the class hierarchy and modules**: move a method body into a new private method of a base class or a
+  small mixin, or into a module-level function in `utils.py` (or a new private module) that the method calls; turn a method that
+  does not use `self` into a `@staticmethod`; introduce a `@property` for a private computation; split a long function into
+  three steps that pass a small `NamedTuple` / dataclass / dict between them; merge two near-duplicate functions into one
+  parameterised helper; move a class-level constant / table next to its only user or into the class body;
+* **control flow**: guard clauses and early returns vs nested ifs, `for ... else`, `while True` + `break` vs a condition,
+  `try / except / else / finally` tidied (same set of caught exceptions), a loop turned into a comprehension plus a second loop,
+  or the reverse; a flag replaced by a sentinel or by `next(..., None)`, or the reverse;
+* **renames**: rename private attributes / private methods / locals consistently (including every use in other modules).
+
+refactor1, refactor2, refactor3 concern the code of the FIRST behaviour, refactor4, refactor5 the SECOND. Touch different
+functions (and files, where the behaviour reaches several) in different patches; at least two of the five must touch two files.
+
+For EVERY patch you must convince yourself of equivalence: write a small comparison script that runs a set of scenarios (normal use,
+edge cases, error cases - compare exception type and message) on the unmodified and on the patched tree and diff the transcripts.
+
+{run}
+
+## Deliverables
+
+    {wt}/_out/refactor1/patch.diff  notes.md      (notes: what changed, why it is equivalent for every input, what you ran)
+    ... refactor2 .. refactor5 likewise.
+
+Verify for each: (a) patch applies to clean HEAD with `git apply --check`, (b) suite result identical to baseline, (c) your
+comparison shows no difference. Finish with `git checkout -- .` (only `_out/` and `_task.md` untracked). Final message: 3 lines per patch.
+'''
+if style == '5':
+    BREAK, REFAC = BREAK5, REFAC5
 ids = ['C%02d' % i for i in range(1, 21)]
 first, second = ids[:10], ids[10:]
 pairs = [(first[i], second[(i + off) % 10]) for i in range(10)]
